@@ -269,7 +269,9 @@ def rules(tier):
             # C18-db: memo entry stored under the length instead of the target level
             ('C18.R14', _shared_rule('c10', 'r10_cache_key_agreement')),
             # C18-da: pcfg_omen_prob.txt written with format(p, '.12f')
-            ('C18.R15', _shared_rule('plumbing', 'float_text_exact'))]
+            ('C18.R15', _shared_rule('plumbing', 'float_text_exact')),
+            # mutation sweep: entries before the start index are never generated - fewer strings than the keyspace says
+            ('C18.R16', _shared_rule('c10', 'r23_cursor_starts'))]
 
 
 META = {
